@@ -201,6 +201,7 @@ func TestMain(m *testing.M) {
 // ReplayFile is the on-disk form of a failing case.
 type ReplayFile struct {
 	Property  string          `json:"property"`
+	Exec      string          `json:"exec,omitempty"` // replayer key when the property has several case types (eg C16P)
 	Signature string          `json:"signature"`
 	Msg       string          `json:"msg"`
 	Case      json.RawMessage `json:"case"`
@@ -215,9 +216,12 @@ func replayDir(prop string) string {
 	return d
 }
 
-func saveReplay(prop string, c interface{}, f *Failure) string {
+func saveReplay(prop, execKey string, c interface{}, f *Failure) string {
 	raw, _ := json.MarshalIndent(c, "", " ")
 	rf := ReplayFile{Property: prop, Signature: f.Signature, Msg: f.Msg, Case: raw}
+	if execKey != prop {
+		rf.Exec = execKey
+	}
 	b, _ := json.MarshalIndent(rf, "", " ")
 	path := filepath.Join(replayDir(prop), "fail-"+digestOf(c)+".json")
 	_ = os.WriteFile(path, b, 0644)
@@ -247,6 +251,11 @@ func sizeScale(quick, thor int) int {
 //
 // exec returns nil when the property held on the case.
 func runProperty[C any](t *testing.T, prop string, gen func(*rapid.T) C, exec func(C) *Failure) {
+	runPropertyAs(t, prop, prop, gen, exec)
+}
+
+// runPropertyAs: execKey names the replayer of the case type (a property may have several).
+func runPropertyAs[C any](t *testing.T, prop, execKey string, gen func(*rapid.T) C, exec func(C) *Failure) {
 	st := getStats(prop)
 	var lastCase *C
 	var lastFail *Failure
@@ -269,7 +278,7 @@ func runProperty[C any](t *testing.T, prop string, gen func(*rapid.T) C, exec fu
 		})
 	})
 	if lastFail != nil {
-		path := saveReplay(prop, *lastCase, lastFail)
+		path := saveReplay(prop, execKey, *lastCase, lastFail)
 		line := fmt.Sprintf("VIOLATION property=%s replay=%s", prop, path)
 		st.mu.Lock()
 		st.Violations = append(st.Violations, line+" :: "+lastFail.Signature+" :: "+firstLine(lastFail.Msg))
@@ -321,7 +330,11 @@ func TestReplay(t *testing.T) {
 		if err := json.Unmarshal(data, &rf); err != nil {
 			t.Fatalf("%s: %v", path, err)
 		}
-		rp, ok := replayers[rf.Property]
+		key := rf.Property
+		if rf.Exec != "" {
+			key = rf.Exec
+		}
+		rp, ok := replayers[key]
 		if !ok {
 			t.Fatalf("no replayer for %s", rf.Property)
 		}
